@@ -53,7 +53,10 @@ let run_file file =
           s := s'; push (show_obs s' (Some t) o)
         | ["get"; k] -> let (_, o) = do_event !s (Get (n (int_of_string k))) in push (show_obs !s None o)
         | ["count"] -> let (_, o) = do_event !s Count in push (show_obs !s None o)
-        | ["snap"; k] -> let (_, o) = do_event !s (Snap (n (int_of_string k))) in push (show_obs !s None o)
+        | ["snap"; k] ->
+          (* Vec::snapshot asserts start <= count *)
+          if int_of_string k > i (count !s) then push "SPANIC"
+          else let (_, o) = do_event !s (Snap (n (int_of_string k))) in push (show_obs !s None o)
         | ["drop"] ->
           s := finish_all !s 100000;
           let (s', o) = do_event !s DropVec in
